@@ -1,6 +1,6 @@
 ---------------------------- MODULE MC_MacroGuards ----------------------------
 EXTENDS MacroGuards, Json, IOUtils, SequencesExt
-Adapt2 == UNION {[1..k -> {"copied", "enumerate", "map", "rev", "skip"}] : k \in 0..2}
+Adapt2 == UNION {[1..k -> {"copied", "enumerate", "flatten", "map", "rev", "skip"}] : k \in 0..2}
 ConsSet == {<<>>} \cup {<<c>> : c \in {"count", "next", "rfind", "rfold", "rposition", "find"}}
 Chains == {a \o c : a \in Adapt2, c \in ConsSet}
 DslDescs == {DslDesc(ms, 0, 0) : ms \in Chains}
